@@ -32,6 +32,12 @@ def run(replay=None):
         'never abort, crash, hang, sanitizer report or a loaded field. Where the model accepts (compatible stacks, width 8->4 on a crafted payload) the implementation must '
         'load the same configuration and storage. Builds: -O1 with assertions and -O2 -DNDEBUG, both ASan+UBSan. '
         'A case = (stack, field tokens, fault); non-trivial = the fault lies inside the stream; distinct by (stack, tokens, fault)')
+    with core.Lock('coq'):
+        rep, tlog = core.translate()
+    for u in rep['untranslatable']:
+        if u['group'] == 'Tags':
+            chk.obligation_broken('translation of ' + u['name'], u['why'])
+    chk.cov['format_constants_in_source'] = {k: rep.get('tags', {}).get(k) for k in ('magic', 'footer')}
     chk.prove('Properties_C08.v')
     names = sc.catalogue(chk, extra_random=24 if thorough else 10)
     runner = sc.StackRunner(chk, 'io', names)
